@@ -1,4 +1,6 @@
 import IodineModel.Props.C06
+import IodineModel.Props.C06Session
+import IodineModel.Props.C08Main
 import IodineModel.Lemmas.OptCli
 import IodineModel.Props.Top
 /-
@@ -14,5 +16,82 @@ theorem handshake_terminates_from_main (env : Env) (argv : List (List Nat)) (f :
     (dev : List Nat) (inps : List CInput) (ht : 162 ≤ ticks inps) :
     (handshakeRun f.cli f.args (Top.cpw f) dev inps).pos = none :=
   handshake_terminates f.cli f.args (Top.cpw f) dev inps ht
+
+/-- **client_main_buffers.**  What `main()` hands to `client_handshake()`: both packet buffers empty (zero-initialised statics,
+`client_init`), hence `CliBufInv` — for EVERY command line and environment. -/
+theorem client_main_buffers (env : Env) (argv : List (List Nat)) (f : Final) (h : Top.CStarts env argv f) :
+    CliBufInv f.cli ∧ f.cli.inpkt.len = 0 := by
+  obtain ⟨o, td, _, _, h3⟩ := C08.client_main_starts_handshake_machine env argv f h
+  have hi : f.cli.inpkt = ⟨0, 0, 0, [], 0, 0⟩ := (congrArg Cli.inpkt h3).trans rfl
+  have ho : f.cli.outpkt = ⟨0, 0, 0, [], 0, 0⟩ := (congrArg Cli.outpkt h3).trans rfl
+  refine ⟨⟨?_, ?_, ?_, ?_, ?_⟩, ?_⟩ <;> simp [hi, ho]
+
+/-- **handshake_session_safe_from_main.**  From `argv` on, NO hypothesis on the configuration: for every command line and
+environment with which iodine reaches `client_handshake()`, every device name of at most 430 bytes and EVERY handshake input
+sequence: the buffers stay within their arrays, the packet buffers and the device name are untouched, nothing is written to the tun
+device, every `system()` command is a validated address / MTU command, 162 timeouts end the handshake. -/
+theorem handshake_session_safe_from_main (env : Env) (argv : List (List Nat)) (f : Final) (h : Top.CStarts env argv f)
+    (dev : List Nat) (hd : dev.length ≤ 430) (hin : List CInput) :
+    HsBufInv (C08.hsRun f.cli f.args (Top.cpw f) dev hin).1 ∧
+    (C08.hsRun f.cli f.args (Top.cpw f) dev hin).1.c.inpkt = f.cli.inpkt ∧
+    (C08.hsRun f.cli f.args (Top.cpw f) dev hin).1.c.outpkt = f.cli.outpkt ∧
+    (C08.hsRun f.cli f.args (Top.cpw f) dev hin).1.dev = dev ∧
+    (∀ e ∈ (C08.hsRun f.cli f.args (Top.cpw f) dev hin).2.1, HsEventOk e) ∧
+    (∀ cmd, CEvent.sys cmd ∈ (C08.hsRun f.cli f.args (Top.cpw f) dev hin).2.1 → C13.IpCmd dev cmd ∨ C13.MtuCmd dev cmd) ∧
+    (162 ≤ ticks hin → (C08.hsRun f.cli f.args (Top.cpw f) dev hin).1.pos = none) :=
+  handshake_session_safe f.cli f.args (Top.cpw f) dev (client_main_buffers env argv f h).1 hd hin
+
+/-- **tunnel_session_safe_from_main.**  … and EVERY tunnel-phase input sequence after it (tun frames below 64 KiB): `CliBufInv` after
+every step, events within the buffers they come out of, no `system()` call, every tun write `FromReceived`.  Again no hypothesis on
+the configuration: this holds also for `-M` values outside C08's range. -/
+theorem tunnel_session_safe_from_main (env : Env) (argv : List (List Nat)) (f : Final) (h : Top.CStarts env argv f)
+    (dev : List Nat) (hin tin : List CInput) (hok : ∀ i ∈ tin, InputOk i) :
+    CliBufInv (C08.tunRun (C08.hsRun f.cli f.args (Top.cpw f) dev hin) tin).1.c ∧
+    (∀ e ∈ (C08.tunRun (C08.hsRun f.cli f.args (Top.cpw f) dev hin) tin).2.1, TunEventOk e) ∧
+    (tin ≠ [] → ∀ f' ∈ C01.tunWrites (C08.tunRun (C08.hsRun f.cli f.args (Top.cpw f) dev hin) tin).2.1, C01.FromReceived tin f') := by
+  have hb := client_main_buffers env argv f h
+  have ht := tunnel_session_safe f.cli f.args (Top.cpw f) dev hb.1 hin tin hok
+  exact ⟨ht.1, ht.2.1, ht.2.2 hb.2⟩
+
+/-- **client_session_safe_from_main.**  The whole composition from `argv` on, under the two conditions `main()` does not check
+(`100 ≤ hostname_maxlen`, 24 characters of room behind the domain — needed for the bound on the host names and for "a timeout always
+SENDS": outside them `dns_encode` can fail and `build_hostname` is unbounded, Props/C08Main.lean `client_main_gap`). -/
+theorem client_session_safe_from_main (env : Env) (argv : List (List Nat)) (f : Final) (h : Top.CStarts env argv f)
+    (L : Nat) (hL : f.cli.hostnameMaxlen = (L : Int)) (h100 : 100 ≤ L) (hroom : f.cli.topdomain.length + 24 ≤ L)
+    (dev : List Nat) (hd : dev.length ≤ 430) (hin tin : List CInput) (hok : ∀ i ∈ tin, InputOk i) :
+    (HsBufInv (C08.hsRun f.cli f.args (Top.cpw f) dev hin).1 ∧
+     (∀ e ∈ (C08.hsRun f.cli f.args (Top.cpw f) dev hin).2.1, HsEventOk e) ∧
+     (∀ cmd, CEvent.sys cmd ∈ (C08.hsRun f.cli f.args (Top.cpw f) dev hin).2.1 → C13.IpCmd dev cmd ∨ C13.MtuCmd dev cmd) ∧
+     (∀ id ty name, CEvent.query id ty name ∈ (C08.hsRun f.cli f.args (Top.cpw f) dev hin).2.1 → name.length ≤ 253) ∧
+     (162 ≤ ticks hin → (C08.hsRun f.cli f.args (Top.cpw f) dev hin).1.pos = none)) ∧
+    ((C08.hsRun f.cli f.args (Top.cpw f) dev hin).2.2 = .finished 0 →
+     CliBufInv (C08.tunRun (C08.hsRun f.cli f.args (Top.cpw f) dev hin) tin).1.c ∧
+     (∀ e ∈ (C08.tunRun (C08.hsRun f.cli f.args (Top.cpw f) dev hin) tin).2.1, TunEventOk e) ∧
+     (tin ≠ [] → ∀ f' ∈ C01.tunWrites (C08.tunRun (C08.hsRun f.cli f.args (Top.cpw f) dev hin) tin).2.1, C01.FromReceived tin f') ∧
+     (∀ id ty name, CEvent.query id ty name ∈ (C08.tunRun (C08.hsRun f.cli f.args (Top.cpw f) dev hin) tin).2.1 → name.length ≤ 253) ∧
+     (∀ more : List CInput, (∀ i ∈ more, InputOk i) → 2 ≤ ticks more →
+        SendsIn (C08.tunRun (C08.hsRun f.cli f.args (Top.cpw f) dev hin) tin).1 more ∨
+        (C01.cafter (C08.tunRun (C08.hsRun f.cli f.args (Top.cpw f) dev hin) tin).1 more).ph = .idle)) :=
+  client_session_safe L f.cli f.args (Top.cpw f) dev (C08.client_main_establishes_ClientCfgOk env argv f h L hL h100 hroom)
+    (client_main_buffers env argv f h).1 (client_main_buffers env argv f h).2 hd hin tin hok
+
+/-- **tunnel_no_wedge_default.**  Without `-M` (hostname_maxlen still 255) no hypothesis is left: from every state of every session
+of every command line, two timeouts never pass without a datagram being sent or `client_tunnel` returning. -/
+theorem tunnel_no_wedge_default (env : Env) (argv : List (List Nat)) (f : Final) (h : Top.CStarts env argv f)
+    (hM : f.cli.hostnameMaxlen = 255) (dev : List Nat) (hin tin : List CInput)
+    (hfin : (C08.hsRun f.cli f.args (Top.cpw f) dev hin).2.2 = .finished 0) (hok : ∀ i ∈ tin, InputOk i)
+    (more : List CInput) (hmore : ∀ i ∈ more, InputOk i) (ht : 2 ≤ ticks more) :
+    SendsIn (C08.tunRun (C08.hsRun f.cli f.args (Top.cpw f) dev hin) tin).1 more ∨
+    (C01.cafter (C08.tunRun (C08.hsRun f.cli f.args (Top.cpw f) dev hin) tin).1 more).ph = .idle :=
+  (client_session_live 255 f.cli f.args (Top.cpw f) dev (C08.client_main_default_maxlen env argv f h hM) hin tin hfin hok).2
+    more hmore ht
+
+/-- non-vacuity: the example command line of Props/C08Main.lean (`iodine -M 200 -Ttxt -O base64 ns t.example.com`) reaches the
+handshake, and `client_main_buffers` applies to what it hands over -/
+example (f : Final) (h : (clientMain C08.exEnv C08.exArgvCli).final = some f) : CliBufInv f.cli ∧ f.cli.inpkt.len = 0 :=
+  client_main_buffers C08.exEnv C08.exArgvCli f h
+
+example : ((clientMain C08.exEnv C08.exArgvCli).final.map fun f => (f.cli.inpkt.len, f.cli.outpkt.len, f.cli.inpkt.data, f.cli.outpkt.data))
+    = some (0, 0, [], []) := by decide +kernel
 
 end Iodine.C06
